@@ -83,6 +83,7 @@ func (s *scriptSC) Save(c *patcher.Checkpoint) (patcher.AfterSaveAction, error) 
 			d += fmt.Sprintf(" srcoff %d", sc.Offset)
 			Ev.ProbeIf(c.MessageCheckpoint.Offset > sc.Offset, "reader_checkpoint_with_source_lagging")
 			Ev.ProbeIf(sc.Offset == 0 && c.MessageCheckpoint.Offset > 0, "decompressor_restart_from_zero")
+			Ev.ProbeIf(c.MessageCheckpoint.Offset-sc.Offset > 16*MiB, "reader_checkpoint_more_than_16MiB_past_its_source_checkpoint")
 		}
 	}
 	if c.BsdiffCheckpoint != nil {
@@ -299,6 +300,28 @@ func TestC03(t *testing.T) {
 			pair.Meta["pad.bin"] = FileMeta{From: "pad.bin", Op: "constant fill grows"}
 			Ev.Probe("constant_fill_file_grows")
 		}
+		assets := rapid.IntRange(0, 7).Draw(rt, "assets") == 0
+		if assets {
+			// "many small assets": every entry of the patch is one operation long (a new file in one
+			// DATA op, or a file reused whole), so no series has a second loop turn
+			ar := NewRng(rapid.Uint64().Draw(rt, "assetseed"))
+			n := rapid.IntRange(4, 14).Draw(rt, "assetcount")
+			pair.Old, pair.New, pair.Meta = Tree{"as": &Entry{Kind: KDir}}, Tree{"as": &Entry{Kind: KDir}}, map[string]FileMeta{}
+			pair.KindChange, pair.DirFile = false, nil
+			for i := 0; i < n; i++ {
+				name := fmt.Sprintf("as/f%02d.dat", i)
+				data := Bytes(ar.U64(), 1+ar.Intn(90*KiB))
+				pair.New[name] = &Entry{Kind: KFile, Data: data}
+				if ar.Intn(4) == 0 {
+					pair.Old[fmt.Sprintf("as/g%02d.dat", i)] = &Entry{Kind: KFile, Data: data}
+					pair.Meta[name] = FileMeta{From: fmt.Sprintf("as/g%02d.dat", i), Op: "renamed whole"}
+				} else {
+					pair.Meta[name] = FileMeta{Op: "new small asset"}
+				}
+			}
+			pair.Ops = append(pair.Ops, fmt.Sprintf("assets shape: %d single-operation files", n))
+			Ev.Probe("patch_of_single_operation_entries")
+		}
 		dir, cleanup := RunDir()
 		defer cleanup()
 		oldDir, newDir := filepath.Join(dir, "old"), filepath.Join(dir, "new")
@@ -310,6 +333,9 @@ func TestC03(t *testing.T) {
 			return
 		}
 		pattern := rapid.IntRange(0, 2).Draw(rt, "savepattern")
+		if assets && rapid.IntRange(0, 2).Draw(rt, "assetsalways") != 0 {
+			pattern = 0
+		}
 		pk := rapid.IntRange(2, 7).Draw(rt, "savek")
 		should := func(call int) bool {
 			switch pattern {
